@@ -2016,22 +2016,44 @@ sexp sexp_string_utf8_index_ref (sexp ctx, sexp self, sexp_sint_t n, sexp str, s
   return sexp_string_utf8_ref(ctx, str, off);
 }
 
+/* the low six bits of the next byte if it is a continuation byte, */
+/* otherwise -1 (leaving the byte in the port) */
+static int sexp_read_utf8_continuation (sexp ctx, sexp port) {
+  int c = sexp_read_char(ctx, port);
+  if (c == EOF)
+    return -1;
+  if ((c & 0xC0) != 0x80) {
+    sexp_push_char(ctx, c, port);
+    return -1;
+  }
+  return c & 0x3F;
+}
+
 sexp sexp_read_utf8_char (sexp ctx, sexp port, int i) {
+  int c1, c2, c3;
   if (i >= 0x80) {
     if ((i < 0xC0) || (i > 0xF7)) {
       return sexp_user_exception(ctx, NULL, "read-char: invalid utf8 byte", sexp_make_fixnum(i));
     } else if (i < 0xE0) {
-      i = ((i&0x3F)<<6) + (sexp_read_char(ctx, port)&0x3F);
+      if ((c1 = sexp_read_utf8_continuation(ctx, port)) < 0) goto truncated;
+      i = ((i&0x3F)<<6) + c1;
     } else if (i < 0xF0) {
-      i = ((i&0x1F)<<12) + ((sexp_read_char(ctx, port)&0x3F)<<6);
-      i += sexp_read_char(ctx, port)&0x3F;
+      if ((c1 = sexp_read_utf8_continuation(ctx, port)) < 0) goto truncated;
+      if ((c2 = sexp_read_utf8_continuation(ctx, port)) < 0) goto truncated;
+      i = ((i&0x1F)<<12) + (c1<<6) + c2;
     } else {
-      i = ((i&0x0F)<<18) + ((sexp_read_char(ctx, port)&0x3F)<<12);
-      i += (sexp_read_char(ctx, port)&0x3F)<<6;
-      i += sexp_read_char(ctx, port)&0x3F;
+      if ((c1 = sexp_read_utf8_continuation(ctx, port)) < 0) goto truncated;
+      if ((c2 = sexp_read_utf8_continuation(ctx, port)) < 0) goto truncated;
+      if ((c3 = sexp_read_utf8_continuation(ctx, port)) < 0) goto truncated;
+      i = ((i&0x0F)<<18) + (c1<<12) + (c2<<6) + c3;
     }
   }
   return sexp_make_character(i);
+ truncated:
+  /* a multi-byte sequence cut short by the end of input or by a byte */
+  /* that does not continue it: decoding it anyway made peek-char push */
+  /* back more bytes than it had read */
+  return sexp_user_exception(ctx, NULL, "read-char: invalid utf8 sequence", sexp_make_fixnum(i));
 }
 
 void sexp_push_utf8_char (sexp ctx, int i, sexp port) {
